@@ -13,12 +13,14 @@ type modelFn func(fr *frame, fn *ssa.Function, args []value) value
 
 // modelState holds per-path state of library models.
 type modelState struct {
-	shaDigests []*shaRec
-	crcRecs    []*crcRec
-	memo       map[string]value
-	approxFmt  int
-	clockCalls int
+	shaDigests  []*shaRec
+	crcRecs     []*crcRec
+	memo        map[string]value
+	approxFmt   int
+	clockCalls  int
 	shaSymbolic int
+	crcSymbolic int
+	uniq        int
 }
 
 func newModelState() *modelState {
@@ -71,6 +73,9 @@ func (e *engine) tryModel(fr *frame, fn *ssa.Function, args []value) (value, boo
 	if strings.Contains(fn.Synthetic, "package initializer") {
 		return nil, true // initialisers of external packages are skipped
 	}
+	if interpFuncs[name] && fn.Blocks != nil {
+		return nil, false // self-contained functions of otherwise modelled packages
+	}
 	if fn.Synthetic != "" && fn.Blocks != nil {
 		return nil, false // wrapper / bound method closure / thunk / instance
 	}
@@ -83,6 +88,11 @@ func (e *engine) tryModel(fr *frame, fn *ssa.Function, args []value) (value, boo
 	}
 	fr.m.unsupported("external function without model: " + name)
 	return nil, true
+}
+
+var interpFuncs = map[string]bool{
+	"encoding/binary.PutUvarint": true, "encoding/binary.Uvarint": true, "encoding/binary.PutVarint": true,
+	"encoding/binary.Varint": true, "encoding/binary.AppendUvarint": true, "encoding/binary.AppendVarint": true,
 }
 
 // opaqueResult: all results are pointers / interfaces / structs declared in
@@ -124,6 +134,7 @@ func registerModels(e *engine) {
 	registerFmt(e)
 	registerBytealg(e)
 	registerHash(e)
+	registerCRC(e)
 	registerCodecs(e)
 	registerJSON(e)
 	registerMisc(e)
@@ -342,6 +353,7 @@ func registerVrt(e *engine) {
 		}
 		return nil
 	})
+	e.reg(vrtPath+"Native", func(fr *frame, fn *ssa.Function, a []value) value { return false })
 	e.reg(vrtPath+"Symbolic", func(fr *frame, fn *ssa.Function, a []value) value {
 		return fr.m.concrete == nil
 	})
@@ -393,6 +405,7 @@ func registerSync(e *engine) {
 		fr.m.block(fr, func() bool { return asInt64(s[1]) == 0 && asInt64(s[2]) == 0 })
 		s[1] = uint32(1)
 		fr.m.lockAcquire(fr, &s[1])
+		fr.m.lockAcquire(fr, &s[2]) // a writer is ordered after earlier readers too
 		return nil
 	})
 	e.reg("(*sync.RWMutex).Unlock", func(fr *frame, fn *ssa.Function, a []value) value {
@@ -410,7 +423,7 @@ func registerSync(e *engine) {
 		fr.m.schedPoint(fr)
 		fr.m.block(fr, func() bool { return asInt64(s[1]) == 0 })
 		s[2] = uint32(asInt64(s[2]) + 1)
-		fr.m.lockAcquire(fr, &s[2])
+		fr.m.lockAcquire(fr, &s[1]) // a reader is ordered after earlier writers only
 		return nil
 	})
 	e.reg("(*sync.RWMutex).RUnlock", func(fr *frame, fn *ssa.Function, a []value) value {
@@ -440,13 +453,14 @@ func registerSync(e *engine) {
 			fr.m.runtimePanic("sync: negative WaitGroup counter")
 		}
 		s[2] = uint32(n)
+		fr.m.lockRelease(fr, &s[2])
 		fr.m.schedPoint(fr)
 		return nil
 	})
 	e.reg("(*sync.WaitGroup).Wait", func(fr *frame, fn *ssa.Function, a []value) value {
 		s := structOf(a[0])
 		fr.m.block(fr, func() bool { return asInt64(s[2]) == 0 })
-		fr.m.hbJoinAll(fr)
+		fr.m.lockAcquire(fr, &s[2])
 		return nil
 	})
 	// Once: slot 0 (atomic.Uint32 struct) replaced by a state int: 0 fresh, 1 running, 2 done
@@ -477,6 +491,7 @@ func registerSync(e *engine) {
 			s[2] = mp
 		}
 		fr.m.schedPoint(fr)
+		fr.m.syncGlobal(fr)
 		return mp
 	}
 	e.reg("(*sync.Map).Load", func(fr *frame, fn *ssa.Function, a []value) value {
@@ -537,6 +552,7 @@ func registerSync(e *engine) {
 		s := structOf(a[0])
 		s[2] = condGen(s) + 1
 		fr.m.schedPoint(fr)
+		fr.m.syncGlobal(fr)
 		return nil
 	})
 	e.reg("(*sync.Cond).Signal", e.models["(*sync.Cond).Broadcast"])
@@ -567,15 +583,18 @@ func registerSync(e *engine) {
 		ty := ty
 		e.reg("sync/atomic.Load"+ty, func(fr *frame, fn *ssa.Function, a []value) value {
 			fr.m.schedPoint(fr)
+			fr.m.syncGlobal(fr)
 			return *(a[0].(*value))
 		})
 		e.reg("sync/atomic.Store"+ty, func(fr *frame, fn *ssa.Function, a []value) value {
 			fr.m.schedPoint(fr)
+			fr.m.syncGlobal(fr)
 			*(a[0].(*value)) = a[1]
 			return nil
 		})
 		e.reg("sync/atomic.Add"+ty, func(fr *frame, fn *ssa.Function, a []value) value {
 			fr.m.schedPoint(fr)
+			fr.m.syncGlobal(fr)
 			p := a[0].(*value)
 			t := fn.Signature.Params().At(1).Type()
 			*p = binop(fr.m, tokenADD, t, *p, a[1])
@@ -583,6 +602,7 @@ func registerSync(e *engine) {
 		})
 		e.reg("sync/atomic.CompareAndSwap"+ty, func(fr *frame, fn *ssa.Function, a []value) value {
 			fr.m.schedPoint(fr)
+			fr.m.syncGlobal(fr)
 			p := a[0].(*value)
 			t := fn.Signature.Params().At(1).Type()
 			if fr.m.truth(equals(fr.m, t, *p, a[1])) {
@@ -593,6 +613,7 @@ func registerSync(e *engine) {
 		})
 		e.reg("sync/atomic.Swap"+ty, func(fr *frame, fn *ssa.Function, a []value) value {
 			fr.m.schedPoint(fr)
+			fr.m.syncGlobal(fr)
 			p := a[0].(*value)
 			old := *p
 			*p = a[1]
@@ -617,6 +638,7 @@ func registerSync(e *engine) {
 		last := func(a value) *value { s := structOf(a); return &s[len(s)-1] }
 		e.reg("(*sync/atomic."+ty+").Load", func(fr *frame, fn *ssa.Function, a []value) value {
 			fr.m.schedPoint(fr)
+			fr.m.syncGlobal(fr)
 			v := *last(a[0])
 			if ty == "Bool" {
 				return asInt64(v) != 0
@@ -625,6 +647,7 @@ func registerSync(e *engine) {
 		})
 		e.reg("(*sync/atomic."+ty+").Store", func(fr *frame, fn *ssa.Function, a []value) value {
 			fr.m.schedPoint(fr)
+			fr.m.syncGlobal(fr)
 			if ty == "Bool" {
 				if a[1].(bool) {
 					*last(a[0]) = uint32(1)
@@ -639,6 +662,7 @@ func registerSync(e *engine) {
 		if ty != "Bool" {
 			e.reg("(*sync/atomic."+ty+").Add", func(fr *frame, fn *ssa.Function, a []value) value {
 				fr.m.schedPoint(fr)
+				fr.m.syncGlobal(fr)
 				p := last(a[0])
 				t := fn.Signature.Params().At(0).Type()
 				*p = binop(fr.m, tokenADD, t, *p, a[1])
@@ -646,6 +670,7 @@ func registerSync(e *engine) {
 			})
 			e.reg("(*sync/atomic."+ty+").CompareAndSwap", func(fr *frame, fn *ssa.Function, a []value) value {
 				fr.m.schedPoint(fr)
+				fr.m.syncGlobal(fr)
 				p := last(a[0])
 				t := fn.Signature.Params().At(0).Type()
 				if fr.m.truth(equals(fr.m, t, *p, a[1])) {
